@@ -1,11 +1,13 @@
 import Clikit.Drv.Util
 import Clikit.Model.Output
+import Clikit.Model.SectionScopes
 /-!
 Driver entries of the C11 models:
 `c11.sgr` (a style through one of the three ways of supplying it - route `ctag`: passed for a single call while
 ANOTHER style is registered under its tag; field `spec`: the codes the
 specification demands), `c11.render` (a message on a formatter), `c11.write` (one writing method),
-`c11.scopes` (a program of indentation scopes).  `c11.render` / `c11.write` with `"wf": true` also
+`c11.scopes` (a program of indentation scopes), `c11.secprog` (a program of indentation scopes over SEVERAL
+section outputs, `Model/SectionScopes.lean`).  `c11.render` / `c11.write` with `"wf": true` also
 answer the deciders of the hypotheses of the message theorems (field `wf`).
 -/
 namespace Clikit.Drv.C11
@@ -132,6 +134,52 @@ partial def progOf (l : List Json) : R Prog :=
   | s :: r => do return .seq (← stmtOf s) (← progOf r)
 end
 
+/-! ### programs of indentation scopes over several sections (`c11.secprog`) -/
+
+def secLines (j : Json) : R (List Str) := do
+  let ls ← (← fArr j "lines").toList.mapM asChars
+  if ls.isEmpty then throw "lines: at least one line expected"
+  if ls.any (·.contains '\n') then throw "lines: a line contains a newline"
+  return ls
+
+mutual
+partial def sstmtOf (j : Json) : R SecScopes.SProg := do
+  match fOpt j "create" with
+  | some _ => return .create
+  | none =>
+  match fOpt j "op" with
+  | some (.str "write") => return .act (.write (← fNat j "sec") (← secLines j))
+  | some (.str "overwrite") => return .act (.overwrite (← fNat j "sec") (← secLines j))
+  | some (.str "clear") => return .act (.clear (← fNat j "sec"))
+  | some (.str "clearN") => return .act (.clearN (← fNat j "sec") (← fNat j "n"))
+  | some _ => throw "field op: write / overwrite / clear / clearN expected"
+  | none =>
+  match fOpt j "scope" with
+  | some (.str "out") => return .scope .out (← fBool j "inc") (← fNat j "n") (← sprogOf (← fArr j "body").toList)
+  | some (.str "sec") =>
+    return .scope (.sec (← fNat j "i")) (← fBool j "inc") (← fNat j "n") (← sprogOf (← fArr j "body").toList)
+  | some _ => throw "field scope: out / sec expected"
+  | none =>
+  match fOpt j "try" with
+  | some (.arr a) => return .attempt (← sprogOf a.toList)
+  | some _ => throw "field try: array expected"
+  | none =>
+  match fOpt j "raise" with
+  | some _ => return .raise
+  | none => throw s!"unknown statement {j.compress}"
+
+partial def sprogOf (l : List Json) : R SecScopes.SProg :=
+  match l with
+  | [] => .ok .skip
+  | s :: r => do return .seq (← sstmtOf s) (← sprogOf r)
+end
+
+/-- the steps of the statements that do something (a scope entry / exit writes nothing) -/
+def secSteps : List Section.IOp → List (List Term.Cmd × List Section.Sec) → List (List Term.Cmd × List Section.Sec)
+  | .indent _ _ :: r, _ :: t => secSteps r t
+  | _ :: r, x :: t => x :: secSteps r t
+  | _, _ => []
+
 /-- the hypotheses of the message theorems of Props/C11 (`message_ok_decides`), decided for this
 message and this resolver -/
 def jWf (rv : Resolver) (msg : Str) : Json :=
@@ -247,6 +295,27 @@ def handle (m : String) (j : Json) : Option (R Json) :=
       return Json.mkObj [("out", jStr (cat false)), ("err", jStr (cat true)),
                          ("order", jList (fun (p : Written) => Json.bool p.1) w),
                          ("indent", jList jNat [i'.out, i'.err]), ("raised", .bool r)]
+  | "c11.secprog" => some do
+      -- {width, ansi, out, prog}: per executed create / operation the bytes and every section (creation order);
+      -- the indentations afterwards; whether the exception propagates; `lexical`: whether the base model on the
+      -- lexical reading of the program gives the same sections and the same stream (`section_scopes_lexical`)
+      let w ← fNat j "width"
+      if w = 0 then throw "width: must be at least 1"
+      let ansi ← fBool j "ansi"
+      let prog ← sprogOf (← fArr j "prog").toList
+      let e0 : SecScopes.Env := { out := ← fNat j "out", ind := [] }
+      if !(SecScopes.validP prog 0).1 then throw "prog: a section that does not exist"
+      let (h, e', r) := SecScopes.compile prog e0
+      let st0 : Section.IState := { secs := [], ind := [] }
+      let tr := secSteps h (Section.traceI ansi w st0 h)
+      let fin := Section.runI ansi w st0 h
+      let lx := Section.run ansi w [] (SecScopes.lexical prog e0).1
+      let jSec (s : Section.Sec) : Json := Json.mkObj [("content", jStrs s.content), ("rows", jNat s.rows)]
+      return Json.mkObj [
+        ("steps", jList (fun (p : List Term.Cmd × List Section.Sec) =>
+            Json.mkObj [("bytes", jStr (Term.emit p.1)), ("secs", jList jSec p.2.reverse)]) tr),
+        ("indent", jList jNat (e'.out :: e'.ind)), ("raised", .bool r),
+        ("lexical", .bool (lx.1 == fin.1.secs && lx.2 == fin.2))]
   | _ => none
 
 end Clikit.Drv.C11
